@@ -148,7 +148,7 @@ def check_io(case, ev):
     if exc is not None:
         return core.exc_finding(exc, case, "ctor/")
     line = "%s %s" % (G.v4_canon(x4), ipaddress.IPv6Address(x6))
-    out, exc = guarded(core.run_io, fa, line + "\n")
+    out, exc = guarded(core.run_io, fa, line + "\n", bool(case.get("nonl")))
     if exc is not None:
         return core.exc_finding(exc, case, "io/")
     parts = out.split()
@@ -205,7 +205,7 @@ def _io_case(draw):
     x4 = draw(G.u32)
     while G.is_mask(x4):
         x4 = (x4 * 7 + 12345) & G.M32
-    return {"cfg": cfg, "x4": x4, "x6": draw(G.v6_int)}
+    return {"cfg": cfg, "x4": x4, "x6": draw(G.v6_int), "nonl": draw(st.integers(0, 3)) == 0}
 
 
 def check_io_long(case, ev):
